@@ -1,4 +1,6 @@
 import Capella.Lemmas.TxnSave
+import Capella.Lemmas.TxnClash
+import Capella.Lemmas.TmpName
 
 /-!
 # C15 — a failed save leaves the files on disk exactly as they were
@@ -12,6 +14,14 @@ the fault schedule (which effectful call fails, with which exception), `pre` wha
 the transaction raise, `frags` the files to write.  A save makes five effectful calls per file
 (`open`, `serialize`, `write` declaration, `write` payload, `close`) and then one `replace` per file.
 `s.fs : path → Option bytes` is the directory, `s.txn` the handler's private transaction set.
+
+Temp names.  `TmpOK tmp names` says: different names have different temp names and no temp name is one
+of the names.  Since `fix: refuse clashing temporary file names` the handler checks exactly this when a
+file is opened for writing (`clash`): a save for which it fails is refused before the clashing file is
+touched (`clash_refused`), a save that succeeds satisfies it (`success_means_usable_temp_names`), and for
+the real `_tmpname` it follows from two syntactic conditions on the file names
+(`local_tmp_names_usable`).  The theorems about "the k-th call of a save" and about retries keep it as
+a hypothesis, because a refused save has no k-th call.
 -/
 namespace Capella.Props.C15
 open Capella.Txn
@@ -24,25 +34,27 @@ the `n` files; `k = 5·n`: the first rename of a non-dry save), then the caller 
 injected error, the handler's transaction is reset, and every path of the directory is as it was
 before the call or is one of the save's temporary names and does not exist. -/
 theorem failed_save_restores (hord : ∀ l, (ord l).Perm l) (s : St P) (h : s.txn = none)
-    (frags : List (Frag P)) (hg : GoodFrags [] frags) (dry : Bool) (k : Nat) (f : Fault)
+    (frags : List (Frag P)) (hg : GoodFrags [] frags) (hok : TmpOK tmp (frags.map (·.path)))
+    (dry : Bool) (k : Nat) (f : Fault)
     (hk : k < 5 * frags.length ∨ (k = 5 * frags.length ∧ dry = false ∧ frags ≠ [])) :
     (save tmp ord (single (s.clock + k) f) none dry frags s).2 = some f.err ∧
     (save tmp ord (single (s.clock + k) f) none dry frags s).1.txn = none ∧
     ∀ q, (save tmp ord (single (s.clock + k) f) none dry frags s).1.fs q = s.fs q ∨
       (q ∈ tmps tmp frags ∧ (save tmp ord (single (s.clock + k) f) none dry frags s).1.fs q = none) :=
-  ⟨(single_fault_restores tmp ord hord s h frags hg dry k f hk).1,
+  ⟨(single_fault_restores tmp ord hord s h frags hg hok dry k f hk).1,
    transaction_txn tmp ord _ dry _ s h,
-   (single_fault_restores tmp ord hord s h frags hg dry k f hk).2⟩
+   (single_fault_restores tmp ord hord s h frags hg hok dry k f hk).2⟩
 
 /-- The same with the usual precondition that no stale temporary file was lying around: the
 directory after the failed save *is* the directory before it. -/
 theorem failed_save_restores_exact (hord : ∀ l, (ord l).Perm l) (s : St P) (h : s.txn = none)
-    (frags : List (Frag P)) (hg : GoodFrags [] frags) (dry : Bool) (k : Nat) (f : Fault)
+    (frags : List (Frag P)) (hg : GoodFrags [] frags) (hok : TmpOK tmp (frags.map (·.path)))
+    (dry : Bool) (k : Nat) (f : Fault)
     (hk : k < 5 * frags.length ∨ (k = 5 * frags.length ∧ dry = false ∧ frags ≠ []))
     (hclean : ∀ q ∈ tmps tmp frags, s.fs q = none) :
     (save tmp ord (single (s.clock + k) f) none dry frags s).1.fs = s.fs := by
   funext q
-  rcases (single_fault_restores tmp ord hord s h frags hg dry k f hk).2 q with hq | ⟨hm, hq⟩
+  rcases (single_fault_restores tmp ord hord s h frags hg hok dry k f hk).2 q with hq | ⟨hm, hq⟩
   · exact hq
   · rw [hq, hclean q hm]
 
@@ -96,15 +108,17 @@ theorem dry_run_noop (hord : ∀ l, (ord l).Perm l) (s : St P) (h : s.txn = none
 
 /-- A save that reports success — under any schedule — has put the complete new content
 (declaration ++ payload) in place of every file it writes, left no temporary file and touched
-nothing else. -/
+nothing else.  (No hypothesis on the temp names any more: the handler's own check guarantees that a
+save which gets this far never shared a temp file between two targets.) -/
 theorem commit_complete (σ : Sched) (hord : ∀ l, (ord l).Perm l) (s : St P) (h : s.txn = none)
-    (frags : List (Frag P)) (hg : GoodFrags [] frags) (hok : TmpOK tmp (frags.map (·.path)))
+    (frags : List (Frag P)) (hg : GoodFrags [] frags)
     (hs : (save tmp ord σ none false frags s).2 = none) :
     (save tmp ord σ none false frags s).1.txn = none ∧
     (∀ fr ∈ frags, (save tmp ord σ none false frags s).1.fs fr.path = some (fr.decl ++ fr.payload)) ∧
     (∀ q ∈ tmps tmp frags, (save tmp ord σ none false frags s).1.fs q = none) ∧
     (∀ q, q ∉ frags.map (·.path) → q ∉ tmps tmp frags →
       (save tmp ord σ none false frags s).1.fs q = s.fs q) := by
+  have hok : TmpOK tmp (frags.map (·.path)) := (success_TmpOK tmp ord σ false frags s h hs).1
   have hsp := success_spec tmp ord σ hord s h frags hg hok hs
   refine ⟨transaction_txn tmp ord σ false _ s h, ?_, ?_, ?_⟩
   · intro fr hfr
@@ -155,6 +169,71 @@ theorem nested_refused (σ : Sched) (dry : Bool) (body : List (Op P)) (s : St P)
     (h : s.txn = some l) : transaction tmp ord σ dry body s = (s, some .alreadyOpen) := by
   simp [transaction, h]
 
+
+/-! ## Temp names: enforced by the handler, proved for `_tmpname` -/
+
+/-- A save that reports success — any schedule, any mode — wrote pairwise different names whose temp
+names are pairwise different and none of which is itself a target: the handler refuses anything else. -/
+theorem success_means_usable_temp_names (σ : Sched) (dry : Bool) (frags : List (Frag P)) (s : St P)
+    (h : s.txn = none) (hs : (save tmp ord σ none dry frags s).2 = none) :
+    TmpOK tmp (frags.map (·.path)) ∧ (frags.map (·.path)).Nodup :=
+  success_TmpOK tmp ord σ dry frags s h hs
+
+/-- **A save whose temp names clash is refused before the clashing file is touched.**  If the temp
+names of the files are not usable, the list of files splits at the first name `open` refuses: the
+files before it went to their temp files, then the handler raises; the caller sees that refusal, the
+transaction is reset, and every path is as before or is the temp name of one of the *earlier* files and
+does not exist.  The refused file, its temp name and all later files were never touched.
+(No fault; faults inside a refused save are covered by `abort_restores`.) -/
+theorem clash_refused (σ : Sched) (hord : ∀ l, (ord l).Perm l) (dry : Bool) (frags : List (Frag P)) (s : St P)
+    (h : s.txn = none) (hg : GoodFrags [] frags) (hbad : ¬ TmpOK tmp (frags.map (·.path)))
+    (hq : QuietFrom σ s.clock) :
+    (save tmp ord σ none dry frags s).2 = some .tmpClash ∧
+    (save tmp ord σ none dry frags s).1.txn = none ∧
+    ∃ pre fr post, frags = pre ++ fr :: post ∧ clash tmp (pre.map (·.path)) fr.path = true ∧
+      ∀ q, (save tmp ord σ none dry frags s).1.fs q = s.fs q ∨
+        (q ∈ tmps tmp pre ∧ (save tmp ord σ none dry frags s).1.fs q = none) := by
+  rcases tmpOK_or_clash tmp (frags.map (·.path)) hg.1 with hok | ⟨pre, p, post, he, hpre, hcl⟩
+  · exact absurd hok hbad
+  · obtain ⟨fpre, frest, rfl, rfl, hm2⟩ := List.map_eq_append_iff.mp he
+    obtain ⟨fr, fpost, rfl, rfl, rfl⟩ := List.map_eq_cons_iff.mp hm2
+    have := clash_refused' tmp ord σ hord dry fpre fpost fr s h hg hpre hcl hq
+    exact ⟨this.1, transaction_txn tmp ord σ dry _ s h, fpre, fr, fpost, rfl, hcl, this.2⟩
+
+/-- Without faults a save of pairwise different files in existing directories has exactly two
+outcomes: it completes (everything installed, no temp file left), or it is refused because of a
+temp-name clash and nothing but temp files of earlier fragments was ever created. -/
+theorem save_completes_or_is_refused (hord : ∀ l, (ord l).Perm l) (frags : List (Frag P)) (s : St P)
+    (h : s.txn = none) (hg : GoodFrags [] frags) :
+    ((save tmp ord noFault none false frags s).2 = none ∧
+      ∀ q, (save tmp ord noFault none false frags s).1.fs q = committed tmp frags s.fs q) ∨
+    ((save tmp ord noFault none false frags s).2 = some .tmpClash ∧
+      ∀ q, (save tmp ord noFault none false frags s).1.fs q = s.fs q ∨
+        (q ∈ tmps tmp frags ∧ (save tmp ord noFault none false frags s).1.fs q = none)) := by
+  by_cases hok : TmpOK tmp (frags.map (·.path))
+  · have hs := noFault_succeeds tmp ord hord s h frags hg hok false
+    exact Or.inl ⟨hs, success_spec tmp ord noFault hord s h frags hg hok hs⟩
+  · obtain ⟨h1, _, pre, fr, post, he, _, h3⟩ :=
+      clash_refused tmp ord noFault hord false frags s h hg hok (noFault_quietFrom _)
+    refine Or.inr ⟨h1, fun q => ?_⟩
+    rcases h3 q with h4 | ⟨h4, h5⟩
+    · exact Or.inl h4
+    · refine Or.inr ⟨?_, h5⟩
+      subst he
+      simp only [tmps, List.map_append, List.mem_append] at h4 ⊢
+      exact Or.inl h4
+
+/-- **The real `_tmpname` gives usable temp names** under two syntactic conditions on the files of a
+save: the last component of every path has at most 250 bytes of UTF-8, and no last component has
+itself the shape `.….tmp`.  (This replaces the former blanket assumption; it is what the harness'
+corpus models satisfy, and what `TmpOK` demands of a caller.) -/
+theorem local_tmp_names_usable (ps : List (List Capella.Path.Str))
+    (hne : ∀ p ∈ ps, p ≠ [])
+    (hshort : ∀ p ∈ ps, ∀ n, p.getLast? = some n → Capella.Path.utf8Len n ≤ 250)
+    (hshape : ∀ p ∈ ps, ∀ n, p.getLast? = some n → ¬ Capella.Path.TmpShaped n) :
+    TmpOK Capella.Path.tmpPath ps :=
+  Capella.Path.tmpPath_ok ps hne hshort hshape
+
 /-! ## The pinned code before the repair did not have the property -/
 
 section witness
@@ -173,7 +252,44 @@ theorem pinned_open_fault_masks_and_sticks :
     (transactionOld w_tmp id noFault false (w_frags.map Op.frag) r.1).2 = some .alreadyOpen := by
   decide
 
+section witness2
+/-- two names with the same temp name (what the 250-character cut does to two long sibling names) -/
+def w_tmp2 : Nat → Nat := fun n => if n = 1 ∨ n = 2 then 100 else n + 100
+def w_s2 : St Nat := { fs := fun q => if q = 1 then some [1, 5] else if q = 2 then some [1, 6] else none,
+                       txn := none, clock := 0, log := [] }
+end witness2
+
+/-- `open` as it was before `fix: refuse clashing temporary file names …`: two files that share a temp
+name, no fault at all — the second write truncates the first one's temp file, the first rename puts the
+*second* file's content under the first name, the second rename fails with ENOENT.  File 1 now holds
+file 2's content.  Kept so that a reverted repair is recognisable by name. -/
+theorem pinned_shared_temp_name_mixes_contents :
+    let r := saveNoCheck w_tmp2 id noFault false w_frags w_s2
+    r.2 = some (.os 2) ∧ r.1.fs 1 = some [1, 8] ∧ r.1.fs 2 = some [1, 6] := by
+  decide
+
 /-! ## Non-vacuity -/
+
+/-- the repaired code on the same witness: refused, both files as before, nothing left behind -/
+example :
+    let r := save w_tmp2 id noFault none false w_frags w_s2
+    r.2 = some .tmpClash ∧ r.1.txn = none ∧ r.1.fs 1 = some [1, 5] ∧ r.1.fs 2 = some [1, 6] ∧ r.1.fs 100 = none := by
+  decide
+
+example : ¬ TmpOK w_tmp2 (w_frags.map (·.path)) := by
+  intro h
+  exact absurd (h.1 1 (by decide) 2 (by decide) (by decide)) (by decide)
+
+/-- `local_tmp_names_usable` applies to ordinary model file names -/
+example : TmpOK Capella.Path.tmpPath [["m.aird".toList], ["fragments".toList, "Part 0.capellafragment".toList]] := by
+  apply local_tmp_names_usable
+  · decide
+  · intro p hp n hn
+    simp only [List.mem_cons, List.not_mem_nil, or_false] at hp
+    rcases hp with rfl | rfl <;> (simp at hn; subst hn; decide)
+  · intro p hp n hn
+    simp only [List.mem_cons, List.not_mem_nil, or_false] at hp
+    rcases hp with rfl | rfl <;> (simp at hn; subst hn; decide)
 
 example : GoodFrags ([] : List Nat) w_frags := by
   refine ⟨by decide, ?_⟩
